@@ -74,7 +74,7 @@ impl Prop for C07 {
             v.push(format!("fixings:{}", f));
         }
         v.push("fed-vs-nyc".into());
-        for c in ["restored:json", "restored:pickle-state", "via-NamedCal"] {
+        for c in ["restored:json", "restored:pickle-state", "via-NamedCal", "in-comma-list"] {
             v.push(c.to_string());
         }
         v.push("fixings:other-forms-of-the-calendar".to_string());
@@ -324,6 +324,29 @@ impl Prop for C07 {
                         }
                     }
                     ctx.asserted((z_hi - z_lo + 1) as u64);
+                }
+                // the name inside a comma list: a weekday is a holiday of "x,y" exactly when it is one of x or of y
+                for step in [1usize, 5] {
+                    let other = BUILTIN[(idx as usize + step) % BUILTIN.len()];
+                    let (oc, pair) = match (get_calendar_by_name(other), rateslib::calendars::NamedCal::try_new(&format!("{},{}", name, other))) {
+                        (Ok(a), Ok(b)) => (a, b),
+                        _ => {
+                            ctx.violation(&format!("C07|name-unresolved-in-list|{},{}", name, other), json!({"name": format!("{},{}", name, other)}));
+                            return;
+                        }
+                    };
+                    ctx.class("in-comma-list");
+                    for z in z_lo..=z_hi {
+                        let dt = to_ndt(z);
+                        ctx.eval(1);
+                        let want_h = cal.is_holiday(&dt) || oc.is_holiday(&dt);
+                        let want_b = cal.is_bus_day(&dt) && oc.is_bus_day(&dt);
+                        if pair.is_holiday(&dt) != want_h || pair.is_bus_day(&dt) != want_b {
+                            ctx.violation("C07|in-comma-list|holidays-differ", json!({"name": format!("{},{}", name, other), "date": fmt_z(z), "is_holiday": pair.is_holiday(&dt), "expected_holiday": want_h, "is_bus_day": pair.is_bus_day(&dt), "expected_bus_day": want_b}));
+                            return;
+                        }
+                    }
+                    ctx.asserted(2 * (z_hi - z_lo + 1) as u64);
                 }
                 match named {
                     Some(nc) => {
